@@ -794,7 +794,11 @@ func (x *Exec) assertInvariants(st *State, ls *LoopSpec, ord int, phase string, 
 	}
 	for i, inv := range ls.Invariants {
 		t := x.specEval(st, inv.Expr, x.bodySpecEnv(st, n))
-		x.oblige(st, fmt.Sprintf("loop%d/inv#%d:%s", ord, i+1, phase), "inv", t.S, n)
+		nm := fmt.Sprintf("loop%d/inv#%d:%s", ord, i+1, phase)
+		if inv.Name != "" {
+			nm = fmt.Sprintf("loop%d/inv:%s:%s", ord, inv.Name, phase)
+		}
+		x.oblige(st, nm, "inv", t.S, n)
 	}
 }
 
@@ -843,21 +847,28 @@ func (x *Exec) execFor(st *State, s *ast.ForStmt, label string) *State {
 	}
 	frame := &loopFrame{label: label}
 	x.loops = append(x.loops, frame)
-	var end *State
+	var ends []*State
 	if bodySt != nil {
 		x.cover(bodySt, fmt.Sprintf("loop%d-body", ord), s)
-		end = x.execBlock(bodySt, s.Body.List)
+		ends = x.execBlockMulti(bodySt, s.Body.List, 4)
 	}
 	x.loops = x.loops[:len(x.loops)-1]
-	back := x.merge(append([]*State{end}, frame.continues...))
-	if back != nil && s.Post != nil {
-		back = x.execStmt(back, s.Post)
-	}
-	if back != nil {
-		x.assertInvariants(back, ls, ord, "keep", nil, s)
+	backs := append(ends, frame.continues...)
+	for bi, back := range backs {
+		if back != nil && s.Post != nil {
+			back = x.execStmt(back, s.Post)
+		}
+		if back == nil {
+			continue
+		}
+		phase := "keep"
+		if len(backs) > 1 {
+			phase = fmt.Sprintf("keep.%d", bi+1)
+		}
+		x.assertInvariants(back, ls, ord, phase, nil, s)
 		if decr0 != "" {
 			d1 := x.specEval(back, ls.Decreases.Expr, x.bodySpecEnv(back, s)).S
-			x.oblige(back, fmt.Sprintf("loop%d/term", ord), "term", fmt.Sprintf("(and (>= %s 0) (< %s %s))", decr0, d1, decr0), s)
+			x.oblige(back, fmt.Sprintf("loop%d/term.%d", ord, bi+1), "term", fmt.Sprintf("(and (>= %s 0) (< %s %s))", decr0, d1, decr0), s)
 		}
 	}
 	return x.merge(append([]*State{exitSt}, frame.breaks...))
@@ -963,15 +974,22 @@ func (x *Exec) execRange(st *State, s *ast.RangeStmt, label string) *State {
 		}
 		x.loops = append(x.loops, frame)
 		x.cover(bodySt, fmt.Sprintf("loop%d-body", ord), s)
-		end := x.execBlock(bodySt, s.Body.List)
+		ends := x.execBlockMulti(bodySt, s.Body.List, 4)
 		x.loops = x.loops[:len(x.loops)-1]
-		back := x.merge(append([]*State{end}, frame.continues...))
-		if back != nil {
+		backs := append(ends, frame.continues...)
+		for bi, back := range backs {
+			if back == nil {
+				continue
+			}
 			back.ghost["$"+idxName] = T{S: fmt.Sprintf("(+ %s 1)", hi), Ty: tyInt}
 			if keyObj != nil {
 				back.vars[keyObj] = T{S: fmt.Sprintf("(+ %s 1)", hi), Ty: keyObj.Type()}
 			}
-			x.assertInvariants(back, ls, ord, "keep", auto(back), s)
+			phase := "keep"
+			if len(backs) > 1 {
+				phase = fmt.Sprintf("keep.%d", bi+1)
+			}
+			x.assertInvariants(back, ls, ord, phase, auto(back), s)
 		}
 		res := x.merge(append([]*State{exitSt}, frame.breaks...))
 		return res
